@@ -1171,6 +1171,8 @@ class Client:
         key_prefix: bytes = b"",
         expire: Optional[int] = None,
     ) -> dict[Key, Any]:
+        # keys is iterated twice below: it may be a one-shot iterator
+        keys = list(keys)
         prefixed_keys = [self.check_key(k, key_prefix=key_prefix) for k in keys]
         remapped_keys = dict(zip(prefixed_keys, keys))
 
